@@ -23,7 +23,10 @@ def run_sketch(cpp, passes=3, env=None, timeout=20, sanitize=False):
         try:
             r = subprocess.run([exe, str(passes)], capture_output=True, timeout=timeout, env=e)
             # the LCD's block character is the byte 0xFF on the device; the host model shows it as U+2588
-            r.stdout = r.stdout.decode("latin-1").replace("\xff", "\u2588")
+            # serial bytes are UTF-8 text (what the host SerialMonitor decodes); a byte that is not part of a valid sequence is shown as
+            # its Latin-1 character (the LCD block character 0xFF as a full block)
+            text = r.stdout.decode("utf-8", errors="surrogateescape")
+            r.stdout = "".join(chr(ord(ch) - 0xDC00) if 0xDC80 <= ord(ch) <= 0xDCFF else ch for ch in text).replace("\xff", "\u2588")
             r.stderr = r.stderr.decode("latin-1")
         except subprocess.TimeoutExpired:
             return {"compiled": True, "timeout": True, "events": []}
